@@ -1,5 +1,6 @@
 import MlModel.Lemmas.PrefetchReplay
 import MlModel.Lemmas.PrefetchGen
+import MlModel.Lemmas.PrefetchLive
 import MlModel.Properties.C05
 /-!
 # C15 — the prefetching generator protocol delivers the generator faithfully
@@ -114,6 +115,99 @@ theorem C15_failure_partial {xs : List Nat} {rest : List Item} (hsrc : g.src = x
       rw [asItems_eq, hsrc] at hs
       exact ⟨(vals_fail_inj _ _ _ _ hs).symm, by rw [he]⟩
 
+/-! ### Nothing stays blocked: deadlock-freedom of the one-client system
+
+The liveness half.  The queue-level no-lost-wake-up invariant (`C04_no_lost_wakeup`: J1 J2 K1 K2,
+`Lemmas/QueueLive*.lean`) is transferred through the embedding (`Lemmas/QueueLiveView.lean`,
+`Lemmas/PrefetchLive.lean`): the generator queue with the client's current `get_batch` call and the
+prefetch thread's `enqueue_from_iterator` is a `Queue.Cfg` on which `Queue.Live` holds in every reachable
+configuration of the server LTS; together with the discipline of the server-level locks this excludes every
+configuration in which a thread waits for ever. -/
+
+theorem enabled_nil {c : Cfg} (h : enabled c = []) (tid : Queue.Tid) : step c tid = none := by
+  rcases Nat.lt_or_ge tid c.ths.length with hlt | hge
+  · cases hs : step c tid with
+    | none => rfl
+    | some r =>
+      exfalso
+      have : tid ∈ enabled c := by
+        unfold enabled
+        rw [List.mem_filter]
+        exact ⟨List.mem_range.mpr hlt, by rw [hs]; rfl⟩
+      rw [h] at this; cases this
+  · exact step_none_of_getElem? (List.getElem?_eq_none hge)
+
+/-- **No deadlock, no request left blocked** (every prefetch size, batch size, generator — failing or
+not —, every schedule): a reachable configuration of the one-client system in which NO thread can take a
+step is final —
+* the client's loop has ended (thread 1 is at `done`),
+* the prefetch thread has been started and has ended (thread 2, `enqueue_from_iterator` returned or raised),
+* the server's own thread (thread 0) is parked in `run_until_shutdown` waiting for a shutdown request
+  (nobody makes one in this configuration; with a `shutdown` request it ends too — see the exploration
+  stage of the check).
+Equivalently: in every reachable configuration in which the client has not ended, some thread is enabled. -/
+theorem C15_no_deadlock (h : Reachable (init p [.client g b]) c) (hdead : enabled c = []) :
+    ∃ tm tc tp, c.ths = [tm, tc, tp] ∧ tc.pc = .done ∧ tp.pc = .done ∧
+      tm.pc = .mnWake ∧ c.sh.shutNotified.contains 0 = false := by
+  obtain ⟨tm, tc, tp, h1, h2, h3, h4, h5⟩ := one_dead (rlinv_reachable h) (enabled_nil hdead)
+  exact ⟨tm, tc, tp, h1, h4, h5, h2, h3⟩
+
+/-- the contrapositive, as a progress statement: as long as the client's loop has not ended, some thread
+can take a step -/
+theorem C15_progress (h : Reachable (init p [.client g b]) c) (ht : c.ths[1]? = some tc) (hnd : tc.pc ≠ .done) :
+    enabled c ≠ [] := by
+  intro hdead
+  obtain ⟨tm, tc', tp, h1, h2, -⟩ := C15_no_deadlock h hdead
+  rw [h1] at ht
+  simp only [List.getElem?_cons_succ, List.getElem?_cons_zero, Option.some.injEq] at ht
+  subst ht
+  exact hnd h2
+
+/-- **The no-lost-wake-up invariant of the generator queue inside the server** (every reachable
+configuration, every schedule): on the queue-level configuration formed by the generator queue, the client's
+current `get_batch` call and the prefetch thread's `enqueue_from_iterator` (`view`), J1 ∧ J2 ∧ K1 ∧ K2 of
+C04 hold: a request parked in `get_batch` while the queue is not empty has a notified / active consumer or
+a producer owing `notify`; parked after the end of enqueueing it has a pending `notify_all`; a parked prefetch
+thread has room coming (a consumer owing `notify cond2`) or a pending `notify_all`. -/
+theorem C15_no_lost_wakeup (h : Reachable (init p [.client g b]) c) {q0 : Queue.Shared}
+    (hq : c.sh.qs = [q0]) :
+    ∃ tm tc otp, c.ths = tm :: tc :: Option.toList otp ∧
+      Queue.J1 (view b q0 tc otp) ∧ Queue.J2 (view b q0 tc otp) ∧ Queue.K1 (view b q0 tc otp) ∧
+      Queue.K2 (view b q0 tc otp) := by
+  obtain ⟨tm, tc, otp, hths, -, -, -, -, -, hL⟩ := rlinv_reachable h
+  obtain ⟨hv, -⟩ := hL.live q0 hq
+  exact ⟨tm, tc, otp, hths, hv.j1, hv.j2, hv.k1, hv.k2⟩
+
+/-
+`C15_faithful` / `C15_failure` (the `_partial` of the two theorems above discharged for every execution
+that cannot be extended): in every reachable configuration in which no thread is enabled — i.e. at the end
+of EVERY maximal finite execution, whatever the schedule — the client's loop HAS ended, with exactly the
+generator's elements and its end marker / its exception.
+-/
+
+/-- **Faithful delivery** (safety + deadlock-freedom): every execution that cannot be extended ends with
+the client's loop ended, having yielded exactly the generator's elements — in order, each once — on a
+`StopIteration` marker carrying exactly the generator's return value, the only marker in all its replies. -/
+theorem C15_faithful {xs : List Nat} (hsrc : g.src = xs.map Item.val)
+    (h : Reachable (init p [.client g b]) c) (hdead : enabled c = []) :
+    ∃ tc, c.ths[1]? = some tc ∧ tc.pc = .done ∧
+      valuesOf tc.yielded = xs ∧ tc.outcome = some (.stop [g.ret]) ∧
+      ∃ ini last, tc.replies = ini ++ [last] ∧ (∀ r ∈ ini, r.marker = none) ∧
+        last.marker = some (.stop [g.ret]) := by
+  obtain ⟨tm, tc, tp, h1, h2, -⟩ := C15_no_deadlock h hdead
+  have ht : c.ths[1]? = some tc := by rw [h1]; rfl
+  exact ⟨tc, ht, h2, C15_faithful_partial hsrc h ht h2⟩
+
+/-- **Failure delivery** (safety + deadlock-freedom): if the generator's `next` raises after the values
+`xs`, every execution that cannot be extended ends with the client's loop ended, having yielded exactly `xs`
+and raised the generator's exception. -/
+theorem C15_failure {xs : List Nat} {rest : List Item} (hsrc : g.src = xs.map Item.val ++ Item.fail :: rest)
+    (h : Reachable (init p [.client g b]) c) (hdead : enabled c = []) :
+    ∃ tc, c.ths[1]? = some tc ∧ tc.pc = .done ∧ valuesOf tc.yielded = xs ∧ tc.outcome = some (.err .value) := by
+  obtain ⟨tm, tc, tp, h1, h2, -⟩ := C15_no_deadlock h hdead
+  have ht : c.ths[1]? = some tc := by rw [h1]; rfl
+  exact ⟨tc, ht, h2, C15_failure_partial hsrc h ht h2⟩
+
 /-! ### Non-vacuity of the one-client theorems (tests of the definitions)
 
 A schedule taken from a run of the real code (prefetch 1, batch 1 / 2), replayed on the model. -/
@@ -137,6 +231,23 @@ failure is met while the batch holds an element) -/
 example : ∃ c, Reachable (init 1 [.client ⟨[.val 7, .fail], 900⟩ 2]) c ∧
     obs c 1 = some (true, [7], some (.err .value)) :=
   ⟨_, reachable_replay (init 1 [.client ⟨[.val 7, .fail], 900⟩ 2]) schedFail (by decide), by decide⟩
+
+/-- the hypotheses of `C15_no_deadlock` / `C15_faithful` are met: after that schedule no thread is enabled
+(the server thread is parked in `run_until_shutdown`), and the client has ended as the theorem says -/
+example : ∃ c, Reachable (init 1 [.client ⟨[.val 7], 900⟩ 1]) c ∧ enabled c = [] ∧
+    c.ths.map (·.pc) = [.mnWake, .done, .done] ∧ obs c 1 = some (true, [7], some (.stop [900])) :=
+  ⟨_, reachable_replay (init 1 [.client ⟨[.val 7], 900⟩ 1]) schedOk (by decide), by decide, by decide, by decide⟩
+
+/-- … and for the failing generator -/
+example : ∃ c, Reachable (init 1 [.client ⟨[.val 7, .fail], 900⟩ 2]) c ∧ enabled c = [] ∧
+    obs c 1 = some (true, [7], some (.err .value)) :=
+  ⟨_, reachable_replay (init 1 [.client ⟨[.val 7, .fail], 900⟩ 2]) schedFail (by decide), by decide, by decide⟩
+
+/-- a reachable configuration in which the client is parked inside `get_batch` (`bWake`, the prefetch thread
+has not run yet): `C15_progress` applies — a thread is enabled (the prefetch thread and the server thread) -/
+example : ∃ c, Reachable (init 1 [.client ⟨[.val 7], 900⟩ 1]) c ∧
+    c.ths.map (·.qt.pc) = [.done, .bWake, .sAcq] ∧ enabled c = [0, 2] :=
+  ⟨_, reachable_replay (init 1 [.client ⟨[.val 7], 900⟩ 1]) (List.replicate 13 1) (by decide), by decide, by decide⟩
 
 /-! ### Re-initialisation, stop and shutdown with arbitrary concurrent requests -/
 
